@@ -101,6 +101,8 @@ def run_plan(plan, tier, seed, t0):
             if r["machinery_error"]:
                 machinery.append("verus %s: %s" % (r["unit"], r["machinery_error"]))
     # ---- Kani groups (sequential; each uses all cores)
+    if os.environ.get("VERIF_SKIP_KANI"):   # development only
+        plan.kani = []
     if plan.kani:
         build_mirror()
         write_harness_files(plan)
